@@ -1,11 +1,11 @@
 SPECIFICATION Spec
 CONSTANTS
   Pair = "DC"
-  MaxDepth = 5
-  MaxCopies = 2
+  MaxDepth = 6
+  MaxCopies = 3
   MaxEdits = 1
-  MaxReopens = 1
-  EditOps = {"channels", "timing_mark"}
+  MaxReopens = 2
+  EditOps = {"channels"}
   CopyModes = {"plain-same", "mask-same", "extent-same", "plain-other", "extent-other"}
   MaskNames = {"lo", "mid"}
   Focus = TRUE
@@ -27,6 +27,7 @@ PROPERTY ReopenResolves
 PROPERTY CopyCopiesPartner
 PROPERTY EditIsLocal
 PROPERTY RefusedIsNoop
+PROPERTY ValidEditsAccepted
 INVARIANT ExportState
 ACTION_CONSTRAINT ExportTrans
 CHECK_DEADLOCK FALSE
